@@ -105,8 +105,35 @@ def run(ctx):
                                                                     "verify_fri_circuit(None)+runner vs lean/P3R/Model/Fri{Native,Circuit,Shape}",
                                                   "case_line": cases[k] if k < len(cases) else None, "impl": bad[1], "model": bad[2]},
                                        "no_input": True})
+    # the other PCS entry point (HidingFriPcs, ZK) and the whole-proof path: under-ground proofs (each PoW phase ground for
+    # fewer bits than the verifier demands, asymmetric commit / query bits) and honest proofs of every PCS flavour of the
+    # C01 campaign through the real native verifier and the real recursive verifier. Only PCS-level divergences count here.
+    pcs_cov = {}
+    if not ctx.get("replay"):
+        pout = f"{work}/pcs"
+        os.makedirs(f"{pout}/empty_corpus", exist_ok=True)
+        cmd = [ctx["harness"], "starkfaults", "--seed", str(seed), "--per-kind", "1", "--values", "1", "--out", pout,
+               "--corpus", f"{pout}/empty_corpus", "--generate", "1", "--forge-all", "0", "--grind-only", "1"]
+        rc, o = ctx["sh"](cmd, timeout=7200)
+        if rc != 0 or not os.path.exists(f"{pout}/c01.report.json"):
+            violations.append({"class": "harness-crash", "what": f"harness starkfaults (PCS entry points) exited {rc}: {o[-300:]}",
+                               "replay": {"cmd": cmd}, "no_input": True})
+        else:
+            prep = json.load(open(f"{pout}/c01.report.json"))
+            shown = {}
+            for v in prep["violations"]:
+                c = v["class"]
+                if "forged-grind" in c or (":honest" in c and ("zk" in c.split(":")[1] if len(c.split(":")) > 1 else False)):
+                    shown[c] = shown.get(c, 0) + 1
+                    if shown[c] <= 2:
+                        violations.append({"class": "pcs-entry:" + c,
+                                           "what": f"{v['kind']}: native={v['detail'].get('native')} circuit={v['detail'].get('circuit')} at {json.dumps(v['replay'])[:160]}",
+                                           "replay": v["replay"]})
+            gh = {k: n for k, n in prep["hist"].items() if "grind" in k or "Pow" in k}
+            pcs_cov = {"evaluations": prep.get("evaluations", 0), "grind_hist": gh}
+            evaluations += prep.get("evaluations", 0)
     cov = {"evaluations": evaluations, "programs": scen, "distinct_nontrivial": distinct,
-           "arith_evaluations": arith_evals, "full_evaluations": full_evals,
+           "arith_evaluations": arith_evals, "full_evaluations": full_evals, "pcs_entry_points": pcs_cov,
            "rule": "scenario = FRI parameter set (blow-up 1-3, queries 1-3, max_log_arity 1-4 giving mixed arity schedules incl. the empty "
                    "one (every matrix of height one: 1 in 24 generated scenarios + 4 corpus scenarios), final poly "
                    "length 1-8, PoW bits 0-4) x 1-3 batches of 1-3 matrices of mixed heights/widths, opening points shared or not; the "
